@@ -63,6 +63,11 @@ def install_replayer(report, dense=False):
 
     def replayer(ob, base):
         from engine import replay_wrapper
+        if ob.meta.get('cfile') == 'sparse.c':
+            if ob.kind not in ('footprint', 'deref', 'index-address'):
+                return False, {'reason': 'no replay recipe for %s '
+                               'obligations of sparse.c' % ob.kind}
+            return sparse_index_replay(ob, envs)
         if ob.meta.get('cfile') == 'dense.c':
             from engine import replay_dense
             return replay_dense.replay_obligation(ob, ob.meta, base, envs)
@@ -79,3 +84,57 @@ def install_replayer(report, dense=False):
 
 def install_dense_replayer(report):
     install_replayer(report, dense=True)
+
+
+def sparse_index_replay(ob, cache):
+    """sparse.c indexing obligations: the battery compares every index kind
+    on sparse matrices with the dense copy (overlay build of the current
+    tree); a read outside colptr / rowind shows as a wrong entry, a
+    MemoryError or a crash"""
+    import os, json, subprocess, tempfile, shutil
+    from engine import overlay
+    root = os.path.dirname(os.path.dirname(os.path.dirname(
+        os.path.abspath(__file__))))
+    if 'spidx' not in cache:
+        class _R:
+            result = None
+            err = None
+
+            def close(self):
+                pass
+        r = _R()
+        d = tempfile.mkdtemp(prefix='cvxverif-sp-')
+        try:
+            ok, log = overlay.build(d)
+            if not ok:
+                r.err = 'overlay build failed: ' + log[-1000:]
+            else:
+                env = dict(os.environ)
+                env['PYTHONPATH'] = d
+                p = subprocess.run(['/venv/bin/python', os.path.join(
+                    root, 'engine', 'replay', 'sparse_index_battery.py')],
+                    capture_output=True, text=True, timeout=600, env=env,
+                    cwd=d)
+                for line in p.stdout.splitlines():
+                    if line.startswith('SPIDX-JSON '):
+                        r.result = json.loads(line[len('SPIDX-JSON '):])
+                if r.result is None:
+                    # a crash of the interpreter is an observation too
+                    r.result = {'index': [{'battery exit': p.returncode,
+                                           'stderr': p.stderr[-300:]}]}
+        except Exception as e:
+            r.err = repr(e)
+        finally:
+            shutil.rmtree(d, ignore_errors=True)
+        cache['spidx'] = r
+    r = cache['spidx']
+    if r.err:
+        return False, {'error': r.err}
+    hits = r.result.get('index', [])
+    return bool(hits), {
+        'battery': 'engine/replay/sparse_index_battery.py: sparse indexing '
+        'against the dense copy on an overlay build of the current tree',
+        'failing_cases': hits[:8],
+        'how_to_rerun': 'D=$(mktemp -d); python3 /verif/engine/overlay.py '
+        '$D; PYTHONPATH=$D /venv/bin/python /verif/engine/replay/'
+        'sparse_index_battery.py'}
